@@ -21,7 +21,7 @@ import (
 func init() {
 	register(&Property{
 		ID:        "C14",
-		Technique: "constant and table extraction (limit pairs, protocol table, status map) compared with the Twirp source in the module cache, codec layout agreement of the grpc-web frame header (length equation proved by the difference-constraint prover), sanitiser must-pass value flow for trailer text, guard dominance on status writes",
+		Technique: "constant and table extraction (limit pairs, protocol table, status map) compared with the Twirp source in the module cache, codec layout agreement of the grpc-web frame header (length equation proved by the difference-constraint prover), sanitiser must-pass value flow for trailer text, guard dominance on status writes; tested-then-dropped error (contradiction) check and interprocedural lock-pairing check over the packages the property is anchored in; interval/offset table read off the comparison guards of the hex-digit test and compared with the hexadecimal digits over all 256 byte values; structural check of the escape decoder and the key=value split; sticky-error typestate of the Twirp stream",
 		Explanation: "Statically decidable part of 'the HTTP gateway maps outcomes faithfully': " +
 			"(R1) limit agreement: wherever a LimitReader bound N is followed by a length test against M, N > M (otherwise oversize bodies are truncated instead of rejected); announced grpc-web sizes are compared with the limit before reading/writing; " +
 			"(R2) the protocol table: every content type maps to a protocol whose response content type is that key, JSON types use the JSON codecs, -text types the base64 reader/writer, and the fallback '*' exists; " +
@@ -145,6 +145,35 @@ func c14r1(c *an.Ctx) {
 		}
 	})
 	c.Check(okRead, "grpcRead | announced size compared with maxSize before reading", c.P.Pos(gr.Pos()), "", "a grpc-web frame's announced length is not limited before the body is read")
+	// over the limit means rejected: every return that can report success (nil error) comes after the body was read
+	{
+		var bodyRead ssa.Instruction
+		an.Instrs(gr, func(in ssa.Instruction) {
+			if call, ok := in.(*ssa.Call); ok && call.Common().StaticCallee() != nil && nameOf(call.Common().StaticCallee()) == "readExactly" {
+				if _, isC := an.ConstInt(call.Common().Args[1]); !isC {
+					bodyRead = in
+				}
+			}
+		})
+		okRej := bodyRead != nil
+		var at ssa.Instruction
+		for _, rc := range an.ReturnCases(gr) {
+			if len(rc.Vals) != 2 || !retReachable(gr, rc.Ret) {
+				continue
+			}
+			if bodyRead != nil && an.InstrDominates(bodyRead, rc.Ret) {
+				continue
+			}
+			if !provablyNonNilCase(rc.Vals[1], rc) {
+				okRej, at = false, rc.Ret
+			}
+		}
+		pos := c.P.Pos(gr.Pos())
+		if at != nil {
+			pos = c.At(at)
+		}
+		c.Check(okRej, "grpcRead | a frame that is not read (too large, short header) is an error", pos, "", "grpcRead can return without an error although it has not read the frame's body: an oversize request is handed to the handler as an empty message instead of being rejected")
+	}
 	// MsgSend: len(data) compared with maxSize before framedWrite
 	ms := c.Fn("drpchttp", "(*grpcWebStream).MsgSend")
 	okSend := false
